@@ -141,10 +141,16 @@ fn ser<O: BinaryOutput>(ty: &Ty, v: &Val, ctx: &mut SerializationContext<O>) -> 
         }
         Ty::Tuple(ts) => {
             let xs = v.items();
+            let d = |i: usize| da(&ts[i], &xs[i]);
             match ts.len() {
-                1 => (da(&ts[0], &xs[0]),).serialize(ctx),
-                2 => (da(&ts[0], &xs[0]), da(&ts[1], &xs[1])).serialize(ctx),
-                3 => (da(&ts[0], &xs[0]), da(&ts[1], &xs[1]), da(&ts[2], &xs[2])).serialize(ctx),
+                1 => (d(0),).serialize(ctx),
+                2 => (d(0), d(1)).serialize(ctx),
+                3 => (d(0), d(1), d(2)).serialize(ctx),
+                4 => (d(0), d(1), d(2), d(3)).serialize(ctx),
+                5 => (d(0), d(1), d(2), d(3), d(4)).serialize(ctx),
+                6 => (d(0), d(1), d(2), d(3), d(4), d(5)).serialize(ctx),
+                7 => (d(0), d(1), d(2), d(3), d(4), d(5), d(6)).serialize(ctx),
+                8 => (d(0), d(1), d(2), d(3), d(4), d(5), d(6), d(7)).serialize(ctx),
                 n => panic!("dyn: tuple arity {n} not supported"),
             }
         }
@@ -253,21 +259,45 @@ fn de(ty: &Ty, ctx: &mut DeserializationContext<'_>) -> Result<Val> {
             3 => <[u8; 3]>::deserialize(ctx)?.to_vec(),
             n => panic!("dyn: byte array length {n} not supported"),
         }),
-        Ty::Tuple(ts) => match ts.len() {
-            1 => {
-                let (a,) = with_expect(&ts[0], || <(DynAny,)>::deserialize(ctx))?;
-                Val::Tuple(vec![a.val])
-            }
-            2 => {
-                let (a, b) = de_tuple2(ts, ctx)?;
-                Val::Tuple(vec![a, b])
-            }
-            3 => {
-                let (a, b, c) = de_tuple3(ts, ctx)?;
-                Val::Tuple(vec![a, b, c])
-            }
-            n => panic!("dyn: tuple arity {n} not supported"),
-        },
+        Ty::Tuple(ts) => {
+            SLOTS.with(|s| s.borrow_mut().push(ts.to_vec()));
+            let _p = PopSlots;
+            Val::Tuple(match ts.len() {
+                1 => {
+                    let t = <(Slot<0>,)>::deserialize(ctx)?;
+                    vec![t.0 .0]
+                }
+                2 => {
+                    let t = <(Slot<0>, Slot<1>)>::deserialize(ctx)?;
+                    vec![t.0 .0, t.1 .0]
+                }
+                3 => {
+                    let t = <(Slot<0>, Slot<1>, Slot<2>)>::deserialize(ctx)?;
+                    vec![t.0 .0, t.1 .0, t.2 .0]
+                }
+                4 => {
+                    let t = <(Slot<0>, Slot<1>, Slot<2>, Slot<3>)>::deserialize(ctx)?;
+                    vec![t.0 .0, t.1 .0, t.2 .0, t.3 .0]
+                }
+                5 => {
+                    let t = <(Slot<0>, Slot<1>, Slot<2>, Slot<3>, Slot<4>)>::deserialize(ctx)?;
+                    vec![t.0 .0, t.1 .0, t.2 .0, t.3 .0, t.4 .0]
+                }
+                6 => {
+                    let t = <(Slot<0>, Slot<1>, Slot<2>, Slot<3>, Slot<4>, Slot<5>)>::deserialize(ctx)?;
+                    vec![t.0 .0, t.1 .0, t.2 .0, t.3 .0, t.4 .0, t.5 .0]
+                }
+                7 => {
+                    let t = <(Slot<0>, Slot<1>, Slot<2>, Slot<3>, Slot<4>, Slot<5>, Slot<6>)>::deserialize(ctx)?;
+                    vec![t.0 .0, t.1 .0, t.2 .0, t.3 .0, t.4 .0, t.5 .0, t.6 .0]
+                }
+                8 => {
+                    let t = <(Slot<0>, Slot<1>, Slot<2>, Slot<3>, Slot<4>, Slot<5>, Slot<6>, Slot<7>)>::deserialize(ctx)?;
+                    vec![t.0 .0, t.1 .0, t.2 .0, t.3 .0, t.4 .0, t.5 .0, t.6 .0, t.7 .0]
+                }
+                n => panic!("dyn: tuple arity {n} not supported"),
+            })
+        }
         Ty::Named(n) => {
             let t = resolve(n);
             de(&t, ctx)?
@@ -325,20 +355,6 @@ impl Drop for PopSlots {
             s.borrow_mut().pop();
         });
     }
-}
-
-fn de_tuple2(ts: &[Ty], ctx: &mut DeserializationContext<'_>) -> Result<(Val, Val)> {
-    SLOTS.with(|s| s.borrow_mut().push(ts.to_vec()));
-    let _p = PopSlots;
-    let (a, b) = <(Slot<0>, Slot<1>) as BinaryDeserializer>::deserialize(ctx)?;
-    Ok((a.0, b.0))
-}
-
-fn de_tuple3(ts: &[Ty], ctx: &mut DeserializationContext<'_>) -> Result<(Val, Val, Val)> {
-    SLOTS.with(|s| s.borrow_mut().push(ts.to_vec()));
-    let _p = PopSlots;
-    let (a, b, c) = <(Slot<0>, Slot<1>, Slot<2>) as BinaryDeserializer>::deserialize(ctx)?;
-    Ok((a.0, b.0, c.0))
 }
 
 fn opt_dyn(inner: &Ty, v: &Val) -> Option<DynAny> {
